@@ -56,7 +56,8 @@ ANCHORS = [
 ]
 REQUIRED = {'datasets_checked': 100, 'dataset_entries_identified': 5000,
             'optimisation_tables_checked': 40, 'initial_point_sets': 100,
-            'real_runs': 4, 'readback_draws': 100}
+            'real_runs': 4, 'readback_draws': 100,
+            'located_entries': 200}
 
 _INJECT = {'chains': None, 'opt': None, 'seen_chains': None}
 _PATCHED = False
@@ -424,6 +425,79 @@ def initial_case(ctx, rng, idx):
             return
 
 
+def _check_located(ctx, bottom, hdims, loc, feats, what):
+    """bottom: (n_points, n_individuals, n_hdim) individual-level entries"""
+    for c, gd in enumerate(hdims):
+        kind, centered, m = loc[gd]
+        col = bottom[:, :, c]
+        ctx.count('located_entries', int(col.size))
+        if not centered and kind in 'GL':
+            ok = np.all(np.abs(col) < 8)
+        elif kind == 'L':
+            ok = np.all(col > 0) and np.all(np.abs(np.log(col) - m) < 0.6)
+        else:
+            ok = np.all(np.abs(col - m) < 0.6)
+        if not ok:
+            ctx.violation('individual_entries_drawn_from_population_model',
+                          'initial_entry_of_wrong_dimension:' + what,
+                          {'dimension': gd, 'expected_location': m,
+                           'kind': kind, 'centered': centered,
+                           'values': col.ravel()[:6]}, feats)
+            return False
+    return True
+
+
+def initial_located_case(ctx, rng, idx):
+    """well separated dimensions: every individual-level entry of an initial
+    point must sit in its own dimension's population distribution"""
+    from checks import c13
+    n_ids = int(rng.integers(1, 4))
+    seed = int(rng.integers(0, 10 ** 6))
+    if idx % 2 == 0:
+        case = c02.make_random(rng, idx)
+        case.reduced = False
+        case.leaves = [GP.make_leaf(l.kind, l.n_dim, l.centered,
+                                    l.cov['n_cov'] if l.cov else 0, None,
+                                    case.n_ids) for l in case.leaves]
+        case.h = __import__('harness.oracle.hierarchy', fromlist=['H']
+                            ).Hierarchy(case.leaves, case.n_ids)
+        case.free_top = np.ones(case.h.n_top, dtype=bool)
+        case.build(rng)
+        post, loc = case.separated_posterior()
+        leaves, h, n = case.leaves, case.h, case.n_ids
+        feats = dict(case.features(), posterior='hierarchical')
+        pts = np.asarray(post.sample_initial_parameters(n_samples=3,
+                                                        seed=seed))
+        bottom = pts[:, :h.n_bottom].reshape(3, n, h.n_hdim) \
+            if h.n_hdim else None
+    else:
+        fp = c13.FPCase(rng, idx)
+        top, sd, loc = GP.separated_top(fp.leaves, fp.n_s)
+        fp.prior_mu = np.concatenate(
+            [top, np.full(fp.n_top - fp.n_pop, 0.2)])
+        fp.prior_sd = np.concatenate(
+            [sd, np.full(fp.n_top - fp.n_pop, 0.01)])
+        post = fp.build()
+        leaves, h, n = fp.leaves, fp.h, fp.n_s
+        feats = dict(fp.features(), posterior='filter')
+        pts = np.asarray(post.sample_initial_parameters(n_samples=3,
+                                                        seed=seed))
+        eb = fp.n_top + h.n_bottom
+        bottom = pts[:, fp.n_top:eb].reshape(3, n, h.n_hdim) \
+            if h.n_hdim else None
+    ctx.case(('initial_located', feats['posterior'],
+              tuple(GP.leaf_code(l) for l in leaves)), True, sample=feats)
+    ctx.count('initial_point_sets')
+    if bottom is None:
+        return
+    hdims, gd = [], 0
+    for l in leaves:
+        if l.n_hdim():
+            hdims += list(range(gd, gd + l.n_dim))
+        gd += l.n_dim
+    _check_located(ctx, bottom, hdims, loc, feats, feats['posterior'])
+
+
 def initial_distribution_case(ctx, rng, idx):
     """individual-level entries follow the population model at the sampled
     population values (standardised residuals pooled over many points)"""
@@ -533,6 +607,7 @@ FAMILIES = [
     Family('dataset', dataset_case, quick=400, thorough=6000),
     Family('optimisation', optimisation_case, quick=120, thorough=2000),
     Family('initial', initial_case, quick=240, thorough=4000),
+    Family('initial_located', initial_located_case, quick=200, thorough=3000),
     Family('initial_distribution', initial_distribution_case, quick=20,
            thorough=200),
     Family('real_run', real_run_case, quick=8, thorough=40),
